@@ -37,6 +37,7 @@ def call_onnx_api(func: Callable[[onnx.ModelProto], _R], model: ir.Model) -> _R:
     # Store the original initializer values so they can be restored
     initializer_values = tuple(model.graph.initializers.values())
     tensors = {v.name: v.const_value for v in initializer_values}
+    shapes_and_types = [(v.shape, v.type) for v in initializer_values]
     original_inputs_len = len(model.graph.inputs)
 
     # Turn the initializers into inputs and clear the initializers
@@ -63,22 +64,23 @@ def call_onnx_api(func: Callable[[onnx.ModelProto], _R], model: ir.Model) -> _R:
             assert initializer.name is not None
             model.graph.initializers.pop(initializer.name)
 
-    proto = ir.serde.serialize_model(model)
-
     try:
+        # Serialization can fail as well (e.g. a lazy tensor that raises); keep it
+        # inside the try block so that the model is always restored
+        proto = ir.serde.serialize_model(model)
         # Call the ONNX C API function
         result = func(proto)
     finally:
-        # Restore the original initializer values so the model is unchanged
-        for initializer in initializer_values:
+        # Restore the original initializers (values, order, shape and type) so the
+        # model is unchanged. Rebuild the dict to keep the original order.
+        model.graph.initializers.clear()
+        for initializer, (shape, type_) in zip(initializer_values, shapes_and_types):
             initializer.const_value = tensors[initializer.name]
-            if initializer.const_value is not None:
-                model.graph.register_initializer(initializer)
-            else:
-                # register_initializer requires const_value to be set.
-                # Directly add to the initializers dict to restore unloaded
-                # initializers that have no data.
-                model.graph.initializers.add(initializer)
+            initializer.shape = shape
+            initializer.type = type_
+            # register_initializer requires const_value to be set. Directly add to
+            # the initializers dict so that initializers without data are restored too.
+            model.graph.initializers.add(initializer)
 
         # Restore the original inputs
         inputs = model.graph.inputs[:original_inputs_len]
